@@ -16,3 +16,15 @@ def obligations(tier):
         Ob("C16.mode/unknown", "misc", "c_mode", {}, t, FN, "output_mode any string of length <= 4 outside the 15 names; script yields nothing / a sequence / a table (symbolic); group_by_type symbolic"),
         Ob("C16.mode/valid", "misc", "c_valid_mode", {}, t, FN, "each of the 15 documented names (symbolic index) x script yields nothing / a sequence / a table", api=False),
     ]
+
+
+def solver_queries(tier, scratch):
+    import json, os
+    from vf import rx_queries as rq
+    from vf.scratch import VERIF
+    known = set()
+    for e in json.load(open(os.path.join(VERIF, "known_findings.json")))["findings"]:
+        if e["property"] == "C16" and e.get("status") == "open":
+            known |= set(e.get("uncovered_characters", []))
+    out, _ = rq.first_char_queries(scratch, "C16", known)
+    return out
